@@ -4,6 +4,8 @@
 pub mod framebuf;
 pub mod slots;
 pub mod smoother;
+pub mod tune;
+pub mod url;
 
 /// One engine instance = the state for one `case`.
 pub trait Engine {
@@ -13,8 +15,12 @@ pub trait Engine {
 pub fn make(name: &str) -> Option<Box<dyn Engine>> {
     match name {
         "framebuf" => Some(Box::new(framebuf::FrameBufEngine::default())),
+        "parsecheck" => Some(Box::new(framebuf::ParseCheckEngine::default())),
         "slots" => Some(Box::new(slots::SlotsEngine::default())),
         "smoother" => Some(Box::new(smoother::SmootherEngine::default())),
+        "tune" => Some(Box::new(tune::TuneEngine::default())),
+        "url" => Some(Box::new(url::UrlEngine::default())),
+        "urlparts" => Some(Box::new(url::UrlPartsEngine::default())),
         _ => None,
     }
 }
